@@ -16,7 +16,7 @@ trap cleanup EXIT
 rundemo() { # $1 = tree
   case "$KIND" in
     dropin:*) d=${KIND#dropin:}; cp "$AG/demo_test.go" "$1/$d/zz_seeded_demo_test.go"; (cd "$1/$d" && go test -vet=off -count=1 -timeout 120s -run "$PAT" . >"$W/demo.out" 2>&1); rc=$?; rm -f "$1/$d/zz_seeded_demo_test.go"; return $rc;;
-    module) rm -rf "$W/demo"; cp -r "$AG/demo" "$W/demo"; sed -i "s#=> /tmp/wt-[A-Za-z0-9]*#=> $1#" "$W/demo/go.mod"; cp /repo/go.sum "$W/demo/go.sum" 2>/dev/null; (cd "$W/demo" && go test -vet=off -count=1 -timeout 120s -run "$PAT" ./... >"$W/demo.out" 2>&1); return $?;;
+    module) rm -rf "$W/demo"; cp -r "$AG/demo" "$W/demo"; sed -i "s#=> /tmp/wt-[A-Za-z0-9-]*#=> $1#" "$W/demo/go.mod"; cp /repo/go.sum "$W/demo/go.sum" 2>/dev/null; (cd "$W/demo" && go test -vet=off -count=1 -timeout 120s -run "$PAT" ./... >"$W/demo.out" 2>&1); return $?;;
   esac
 }
 rundemo "$W/wt"; before=$?
